@@ -345,7 +345,7 @@ Definition header_roundtrip (tol : Q) (s : smset) (d : dfile) : bool :=
      | Some x => text_eqb x (tx (if s_sel s then "YES" else "NO")) | None => false end.
 
 (* the beat length in force at a denoted time (last tempo change at or before it), and the accumulated effect of
-   writing tempo beats with two decimals: 0.005 beat at each change of beat length before that time *)
+   writing tempo beats with six decimals (two before /repo 6b5cf38): 0.0000005 beat at each change of beat length before that time *)
 Fixpoint active_bl (tempo : list (Q * Q * Q)) (t : Q) (cur : Q) : Q :=
   match tempo with
   | [] => cur
@@ -356,7 +356,7 @@ Fixpoint max_bl (tempo : list (Q * Q * Q)) : Q :=
 Fixpoint round_slack (tempo : list (Q * Q * Q)) (prev : Q) : Q :=
   match tempo with
   | [] => 0
-  | (_, bpm, _) :: r => (1 # 200) * Qabs (60000 / bpm - prev) + round_slack r (60000 / bpm)
+  | (_, bpm, _) :: r => rnd_half * Qabs (60000 / bpm - prev) + round_slack r (60000 / bpm)
   end.
 Definition grid_bound (tol : Q) (d : dfile) : note4 -> Q :=
   let '(bl0, slack) := match d_tempo d with [] => (0, 0) | (_, bpm, _) :: r => (60000 / bpm, round_slack r (60000 / bpm)) end in
